@@ -1,4 +1,5 @@
 """Per-property check specifications (which harness queries decide which property, at which bounds)."""
+import os
 
 LEAK = ["--memory-leak-check"]
 
@@ -138,6 +139,46 @@ PROPS["C19"] = {
     "assumptions": KANI_ASSUME + [
         "the caller's waker is a harness-defined RawWaker over a counter record {live, wakes, clones, touched-after-dead}",
         "skeletons are enumerated because a symbolic 'which handle exists' makes CBMC fan out over all function pointers",
+    ],
+}
+
+import json as _json
+_C11 = _json.load(open(os.path.join(os.path.dirname(os.path.dirname(os.path.abspath(__file__))), "harness/rt/c11_names.json")))
+
+
+def _c11(names):
+    return ["c11::" + n for n in names]
+
+
+_OOB = ["c11::c11_insert_oob_n0_s0", "c11::c11_insert_oob_n2_s0", "c11::c11_insert_oob_n2_s1",
+        "c11::c11_remove_oob_n0_s0", "c11::c11_remove_oob_n2_s0", "c11::c11_remove_oob_n2_s1"]
+
+PROPS["C11"] = {
+    "crate": "rt",
+    "groups": [
+        {"id": "step", "quick": _c11(_C11["step_q"]) + _c11(_C11["misc"]) + _OOB + ["c11::c11_negative_twin"],
+         "thorough_adds": _c11(_C11["step_t"]), "timeout": 1800, "mem_gb": 10},
+        {"id": "seq", "quick": _c11(_C11["seq2_q"]), "thorough_adds": _c11(_C11["seq2_t"]) + _c11(_C11["seq3_t"]),
+         "timeout": 1800, "mem_gb": 10},
+    ],
+    "negative": ["c11::c11_negative_twin"],
+    "expect_panic": dict(
+        [(h, {"fail_desc": "index <= self.len", "unreachable_fn": ["::reserve", "TempVec", "cglue_reserve_vec"]}) for h in _OOB if "insert" in h] +
+        [(h, {"fail_desc": "index < self.len", "unreachable_fn": ["::reserve", "TempVec", "cglue_reserve_vec"]}) for h in _OOB if "remove" in h]),
+    "bounds": "inductive step: ONE symbolic operation (kind, index, value, amount all symbolic) out of {push, pop, insert, remove, "
+              "reserve(<=3), clone, write through DerefMut} from every enumerated state shape len 0..=2 (thorough 0..=4) x spare "
+              "capacity {0,1,2} x element type {u8, u64, zero-sized, heap-owning drop-counted}, post-state compared with an array "
+              "model and dropped under Kani's size-matched dealloc model; all 49 two-operation kind sequences with symbolic "
+              "arguments from the exact-capacity shape (thorough: 196 two-op and 125 three-op sequences, two shapes, two element "
+              "types); out-of-range insert/remove for every index beyond the length",
+    "outside": "len > 4; sequences longer than 3 beyond what the inductive step implies; allocation failure; serde impls",
+    "assumptions": KANI_ASSUME + [
+        "representation invariant used for the inductive step: (data,len,capacity) are the raw parts of a live Vec<T> - exactly "
+        "what CVec::from establishes; re-established by the post-check (contents, length, capacity >= len, size-matched free)",
+        "reference model is a fixed array + length maintained by the harness",
+        "Kani cannot observe state after a panic: 'panics without modifying it' is decided as 'the range assertion is the only "
+        "failing check and every assertion-type check in the growth path is unreachable'; the native replay form observes the "
+        "vector after catch_unwind",
     ],
 }
 
